@@ -1,7 +1,7 @@
 (* C05, step 8: the hand-written cleaner step and logical_newline of the model
    are exactly the interpretation of the tables generated from the current
    source text of c_cleaner (Gen/C05_tables.v). *)
-From Coq Require Import Bool Arith List Lia.
+From Coq Require Import Bool Ascii Arith List Lia.
 From CBI Require Import Lib.Data Model.C05 Model.C05g Gen.C05_tables.
 Import ListNotations.
 
@@ -28,3 +28,43 @@ Proof.
 Qed.
 End G.
 Print Assumptions mstep_is_source_table.
+
+(* ---------- one_space_line ---------- *)
+Theorem append_char_is_source c b o : c_char c b = bs_self (brun prog_append_char (bstart b c o)).
+Proof.
+  destruct b as [ps t]. unfold c_char, c_space. cbn. destruct (isspace c); cbn; [|reflexivity].
+  destruct t; reflexivity.
+Qed.
+Theorem append_space_is_source b c o : c_space b = bs_self (brun prog_append_space (bstart b c o)).
+Proof. destruct b as [ps t]. unfold c_space. cbn. destruct t; reflexivity. Qed.
+Theorem append_nonspace_is_source c b o : c_nonspace c b = bs_self (brun prog_append_nonspace (bstart b c o)).
+Proof. destruct b as [ps t]. reflexivity. Qed.
+Theorem join_is_source a b c : c_join a b = bs_self (brun prog_join (bstart a c b)).
+Proof.
+  destruct a as [ps t], b as [[|p0 rest] u]; unfold c_join; cbn -[Ascii.eqb]; [reflexivity|].
+  unfold head_is, sp. destruct (Ascii.eqb p0 " "%char); destruct t; reflexivity.
+Qed.
+Theorem category_is_source b c o : c_cat b = bs_res (brun prog_category (bstart b c o)).
+Proof.
+  destruct b as [[|p0 [|p1 r]] t]; unfold c_cat; cbn -[Ascii.eqb]; [reflexivity| |]; unfold head_is, sp, hash.
+  - destruct (Ascii.eqb p0 " "%char), (Ascii.eqb p0 "#"%char); reflexivity.
+  - destruct (Ascii.eqb p0 " "%char), (Ascii.eqb p0 "#"%char), (Ascii.eqb p1 "#"%char); reflexivity.
+Qed.
+
+(* ---------- the physical-line loop of c_file_source ---------- *)
+Section L.
+Context {C B : Type} (A : alg C B).
+Theorem phys_line_is_source (f : fs B) n body continued b0 :
+  snd (lrun A loop_table n body continued b0 f) = phys_line A f n (body, continued).
+Proof.
+  unfold phys_line. cbn -[process logical_newline close_logical].
+  destruct (process A (fs_st f) (a_empty A) body) as [st1 b1]. cbn -[logical_newline close_logical].
+  destruct (negb continued && negb (top_is_block st1)); cbn -[logical_newline close_logical].
+  - destruct (logical_newline A st1 b1) as [st2 b2]. cbn -[close_logical].
+    destruct (cat_blank (a_cat A b2)); cbn -[close_logical];
+      destruct (negb continued && negb (top_is_block st2)); reflexivity.
+  - destruct (cat_blank (a_cat A b1)); cbn -[close_logical];
+      destruct (negb continued && negb (top_is_block st1)); reflexivity.
+Qed.
+End L.
+Print Assumptions phys_line_is_source.
